@@ -33,7 +33,9 @@ fn laws(st: &mut Stats, a: &DataType, tn: &str, b: &DataType, vs: &[Value], k: u
                         Err(e) => st.violation(json!({"kind":"value-of-convertible-type-not-converted","source_type":a.to_string(),"target":tn,"converted_type":img.to_string(),"value":v.to_string(),"error":e,
                             "site": if matches!(v, Value::Float(_)) && tn.contains("integer") { "Base<Float,DataType>::value" } else { "other" }})),
                         Ok(w) => if !img.contains(w) {
-                            let negzero = matches!(v, Value::Float(f) if **f == 0.0 && (f.is_sign_negative() || a.to_string().contains("-0"))) && tn.contains("text");
+                            let vtxt = v.to_string();
+                            let negzero = ["0", "-0", "some(0)", "some(-0)"].contains(&vtxt.as_str()) && (vtxt.contains("-0") || a.to_string().contains("-0")) && tn.contains("text")
+                                && (a.to_string().contains("float") || matches!(v, Value::Float(_)));
                             st.violation(json!({"kind":"converted-value-outside-converted-type","class": if negzero { "negative-zero-into-text" } else { "other" },"source_type":a.to_string(),"target":tn,"converted_type":img.to_string(),"value":v.to_string(),"converted_value":w.to_string()}));
                         }
                     }
